@@ -142,6 +142,39 @@ def historyFlags (tr : List Tr) : List String :=
   let fq := tr.any fun t => match t with | .forceQuit => true | _ => false
   (if k1a || k1b then ["K1"] else []) ++ (if k2 then ["K2"] else []) ++ (if fq then ["forceQuit"] else [])
 
+/-- C20: the `Calm` clauses evaluated on the MainLoop machine's trace (oldest first); the result lists the violated clauses -/
+structure CalmSt where
+  pending : List (Nat × Nat × Int) := []          -- (queue, signal id, priority)
+  dispatching : List (Nat × Int) := []            -- innermost first: (queue, priority) of signals being dispatched
+  waits : List (Cls × Nat) := []                  -- open waiting calls
+  procs : Nat := 0                                -- open non-waiting calls
+  bad : List String := []
+
+def calmStep (st : CalmSt) (t : Tr) : CalmSt :=
+  let flag (st : CalmSt) (b : Bool) (n : String) : CalmSt := if b && !st.bad.contains n then { st with bad := st.bad ++ [n] } else st
+  match t with
+  | .enq q s =>
+    let urgent := match st.dispatching.find? (·.1 = q) with
+      | some d => decide (s.prio < d.2) && st.pending.any (·.1 = q)
+      | none => false
+    let st := flag st urgent "C1-urgent-enqueue"
+    let st := flag st (s.cls == .exception) "C3-handler-exception"
+    { st with pending := st.pending ++ [(q, s.id, s.prio)] }
+  | .take q s =>
+    let pend := st.pending.eraseP fun p => p.1 = q ∧ p.2.1 = s.id
+    let others := pend.any (·.1 = q)
+    let st := flag st (others && (st.procs > 0 || st.waits.any (·.1 = s.cls))) "C4-processing-call-with-pending"
+    { st with pending := pend, dispatching := (q, s.prio) :: st.dispatching }
+  | .dispatched _ _ => { st with dispatching := st.dispatching.tail }
+  | .closeReq _ n => flag st (n > 0) "C2-close-with-pending"
+  | .waitBegin c t => { st with waits := (c, t) :: st.waits }
+  | .waitEnd c t _ => { st with waits := st.waits.filter fun w => !(w.1 == c && w.2 == t) }
+  | .procBegin => { st with procs := st.procs + 1 }
+  | .procEnd => { st with procs := st.procs - 1 }
+  | _ => st
+
+def calmFlags (tr : List Tr) : List String := (tr.foldl calmStep {}).bad
+
 def opMachine (j : Json) : Except String Json := do
   let cc ← charClass (← field j "cc")
   let screens ← (← arr (← field j "screens")).mapM screenOf
@@ -182,6 +215,7 @@ def opMachine (j : Json) : Except String Json := do
     ("out", Json.str (String.ofList c.A.out.flatten)),
     ("stack", Json.arr (c.A.stack.reverse.map (entryJson P)).toArray),
     ("depth", Json.num c.L.levels.length),
-    ("flags", Json.arr ((historyFlags c.tr.reverse).map Json.str).toArray)])
+    ("flags", Json.arr ((historyFlags c.tr.reverse).map Json.str).toArray),
+    ("noncalm", Json.arr ((calmFlags c.tr.reverse).map Json.str).toArray)])
 
 end Driver
